@@ -31,10 +31,10 @@ impl Op {
     fn to_json(&self) -> Value {
         match self {
             Op::Sign { msg, stream, norm_rejects, compress_fails } => {
-                json!({"op": "sign", "msg_hex": hex(msg), "stream": stream, "norm_rejects": norm_rejects, "compress_fails": compress_fails})
+                json!({"op": "sign", "msg_hex": crate::rng::msg_hex(msg), "stream": stream, "norm_rejects": norm_rejects, "compress_fails": compress_fails})
             }
             Op::Crash => json!({"op": "crash"}),
-            Op::Neighbour { reload, msg, stream } => json!({"op": "neighbour", "reload": reload, "msg_hex": hex(msg), "stream": stream}),
+            Op::Neighbour { reload, msg, stream } => json!({"op": "neighbour", "reload": reload, "msg_hex": crate::rng::msg_hex(msg), "stream": stream}),
             Op::FailedLoad { field } => json!({"op": "failed_load", "field": field}),
         }
     }
@@ -44,11 +44,11 @@ impl Op {
             "failed_load" => Some(Op::FailedLoad { field: v.get("field").and_then(|f| f.as_u64()).map(|f| f as usize) }),
             "neighbour" => Some(Op::Neighbour {
                 reload: v.get("reload")?.as_bool()?,
-                msg: unhex(v.get("msg_hex")?.as_str()?)?,
+                msg: crate::rng::msg_unhex(v.get("msg_hex")?.as_str()?)?,
                 stream: v.get("stream")?.as_u64()?,
             }),
             "sign" => Some(Op::Sign {
-                msg: unhex(v.get("msg_hex")?.as_str()?)?,
+                msg: crate::rng::msg_unhex(v.get("msg_hex")?.as_str()?)?,
                 stream: v.get("stream")?.as_u64()?,
                 norm_rejects: v.get("norm_rejects")?.as_u64()? as u8,
                 compress_fails: v.get("compress_fails")?.as_u64()? as u8,
@@ -554,6 +554,7 @@ fn deep_run(seed: u64, run: u64, pool: &world::KeyPool<V512>, pool2: &world::Key
     out.stats.steps += sched.steps;
     out.stats.add("deep.yield_points", sched.steps);
     out.stats.add("sched.switches", sched.switches);
+    out.stats.add("sched.lock_handoffs", sched.lock_handoffs);
     out.stats.evaluations += total_ops;
     if sched.switches > 0 {
         out.stats.interleavings.insert(sched.trace_hash);
